@@ -15,7 +15,11 @@
         "idx idx ... ; s,e,TAG,c.c.c ..." (context token indices; per context token span, blanked kind, content), or P
    U name lo-hi lo-hi ...    -> load the range table of a Unicode predicate (ws | num | alpha | ling) dumped from Rust's
         char methods (as the c02 driver does); Q uses the four tables once all are loaded (any text), the ASCII
-        restriction C14Edit.ascii_uni before; answers "U name <number of ranges>" *)
+        restriction C14Edit.ascii_uni before; answers "U name <number of ranges>"
+   B lint | doc              -> (phase 5) the BYTE STREAM derive(Hash) of LintContext::from_lint(lint, doc) feeds to the hasher
+        (Model/C14Bytes.v: enc_ctx) and SipHash-1-3 with keys (0,0) over it (stored_hash), as
+        "wf <stream in hex> <hash: 8 bytes little endian in hex>"; kinds as above with P code = index of the Punctuation
+        variant (64 + index of the currency for Currency), N value = b<bits of the hashed u64>, suffix = variant index *)
 let split c s = List.map String.trim (String.split_on_char c s)
 let ints s = ints_of_line s
 let nats s = List.map nat_of_int (ints s)
@@ -40,7 +44,17 @@ let parse_lint s =
        | _ -> failwith "lint head")
   | _ -> failwith "lint"
 
-let opt_code w = if w = "-" then None else Some (n_of_int (int_of_string w))
+(* a number in binary ("b1011", most significant bit first: values beyond OCaml's 63-bit ints) or in decimal *)
+let n_of_bits0 (w : string) : n =
+  let p = ref None in
+  String.iter (fun ch ->
+    let b = (ch = '1') in
+    p := (match !p with
+          | None -> if b then Some XH else None
+          | Some q -> Some (if b then XI q else XO q))) w;
+  match !p with None -> N0 | Some q -> Npos q
+let num w = if String.length w > 0 && w.[0] = 'b' then n_of_bits0 (String.sub w 1 (String.length w - 1)) else n_of_int (int_of_string w)
+let opt_code w = if w = "-" then None else Some (num w)
 let parse_kind ws =
   match ws with
   | ["W"; m] -> KWord (opt_code m)
@@ -48,7 +62,7 @@ let parse_kind ws =
   | ["Q"; "-"] -> KQuote None
   | ["Q"; n] -> KQuote (Some (nat_of_int (int_of_string n)))
   | ["D"] -> KDecade
-  | ["N"; v; s; r; p] -> KNumber (n_of_int (int_of_string v), opt_code s, n_of_int (int_of_string r), nat_of_int (int_of_string p))
+  | ["N"; v; s; r; p] -> KNumber (num v, opt_code s, n_of_int (int_of_string r), nat_of_int (int_of_string p))
   | ["S"; n] -> KSpace (nat_of_int (int_of_string n))
   | ["L"; n] -> KNewline (nat_of_int (int_of_string n))
   | ["E"] -> KEmail | ["U"] -> KUrl | ["H"] -> KHostname | ["X"] -> KUnlintable
@@ -122,6 +136,11 @@ let n_of_bits (w : string) : n =
           | Some q -> Some (if b then XI q else XO q))) w;
   match !p with None -> N0 | Some q -> Npos q
 
+let hex_of_bytes (bs : n list) : string =
+  let b = Buffer.create (2 * List.length bs + 1) in
+  List.iter (fun x -> Buffer.add_string b (Printf.sprintf "%02x" (int_of_n x))) bs;
+  if Buffer.length b = 0 then "-" else Buffer.contents b
+
 (* Unicode range tables for stream Q (same representation as ocaml/c02_main.ml) *)
 let tables : (string, (int * int) array) Hashtbl.t = Hashtbl.create 8
 let in_table name =
@@ -155,6 +174,13 @@ let () =
            | [li; d] ->
                (match run_context_indices (parse_lint li) (parse_doc d) with
                 | Some idx -> print_endline (String.concat " " (List.map (fun k -> string_of_int (int_of_nat k)) idx))
+                | None -> print_endline "P")
+           | _ -> print_endline "?")
+      | 'B' ->
+          (match split '|' body with
+           | [li; d] ->
+               (match run_bytes (parse_lint li) (parse_doc d) with
+                | Some ((wf, bs), h) -> Printf.printf "%s %s %s\n" (if wf then "wf" else "ILL-FORMED") (hex_of_bytes bs) (hex_of_bytes h)
                 | None -> print_endline "P")
            | _ -> print_endline "?")
       | 'X' ->
